@@ -1,8 +1,9 @@
 #ifndef VP_FIND_SHARED_H
 #define VP_FIND_SHARED_H
 #include "softhsm_env.h"
-/* population: object k is delivered by the store iff IN(present_k); objects 0,1 by the token, object 2 by the session object store */
-enum vp_in_idx { I_present0, I_present1, I_present2, I_w, I_createNull, I_addFails, I_storeSlotSeen, VP_IN_N };
+/* population: object k is delivered by the store iff IN(present_k); objects 0,1 by the token, object 2 by the session object store -
+ * for the session's slot unless IN(obj2_foreign): then it is a session object of ANOTHER slot, which only the all-slots overload of getObjects lists */
+enum vp_in_idx { I_present0, I_present1, I_present2, I_w, I_createNull, I_addFails, I_storeSlotSeen, I_obj2_foreign, VP_IN_N };
 enum vp_out_idx { O_found0, O_found1, O_found2, O_add_n0, O_add_n1, O_add_n2, O_add_priv, O_add_token, O_add_slot, O_add_hsess,
                   O_sos_slot, O_setHandles_n, O_setFindOp_n, O_tokGet_n, O_sosGet_n, VP_OUT_N };
 VP_C_BEGIN
